@@ -14,24 +14,94 @@ var tempName = regexp.MustCompile(`\.t\d+`)
 // reviewed by hand (function|access with SSA temporaries stripped -> argument). They are
 // reported as notes, not as discharged obligations: nothing is claimed for them.
 var laManual = map[string]string{
-	"internal/corazawaf.(*Rule).doEvaluate|*matchedValues[0]":                                                                      "the function returns earlier when len(matchedValues)==0 and the slice only grows afterwards; the guard speaks about an earlier SSA version of the accumulator",
-	"internal/operators.(*indexedMatcher).matchCI|s[slice-lo=((*i - m.minLen) + 1)]":                                               "Horspool window: i starts at minLen-1 and only increases, the upper bound pos+nlen<=len(s) is tested",
-	"internal/operators.(*indexedMatcher).matchCS|s[slice-lo=((*i - m.minLen) + 1)]":                                               "Horspool window: i starts at minLen-1 and only increases, the upper bound pos+nlen<=len(s) is tested",
-	"internal/operators.(*restpath).Evaluate|o.re.FindStringSubmatch(value)[(*rangeindex + 1)]":                                     "regexp API: a non-empty FindStringSubmatch result has len == len(SubexpNames())",
-	"internal/operators.(*rx).Evaluate|o.re.FindStringSubmatchIndex(value)[((2 * *i) + 1)]":                                         "loop bound i < len(match)/2 implies 2i+1 < len(match)",
-	"internal/seclang.(*RuleParser).ParseOperator|strings.TrimSpace(strings.Cut(OPERATOR,\" \")#0)[0]":                              "the normalising switch makes the operator start with '@' or '!', so the part before the first blank is not empty",
-	"internal/seclang.(*RuleParser).ParseOperator|strings.TrimSpace(strings.Cut(OPERATOR,\" \")#0)[slice-lo=1]":                     "same as above",
-	"internal/corazarules.(MatchedRule).ErrorLog|mr.MatchedDatas_[0]":                                                              "MatchRule is only reached with a non-empty match list (doEvaluate returns early on no match; SecAction synthesises one datum)",
-	"internal/corazawaf.chainPartOf|matchedChains[(*rangeindex + 1)][(*rangeindex + 1)]":                                            "multiphase build only: compared chains are produced by the same rule and have the same number of links",
-	"internal/corazawaf.isMultiphaseDoubleEvaluation|collectiveMatchedValues[slice-hi=(len(collectiveMatchedValues) - 1)]":          "multiphase build only: the element being removed was appended by the caller just before",
-	"internal/operators.newRESTPath|operators.rePathTokenRe.FindAllStringSubmatch(data,-1)[(*rangeindex + 1)][1]":                   "rePathTokenRe has exactly one capture group, every submatch slice has two elements",
-	"internal/seclang.parseActions|actions[slice-lo=(*beforeKey + 1)]":                                                             "beforeKey/afterKey are indices of bytes already scanned (or -1), so index+1 <= len(actions)",
-	"internal/seclang.parseActions|actions[slice-lo=(*afterKey + 1)]":                                                              "beforeKey/afterKey are indices of bytes already scanned (or -1), so index+1 <= len(actions)",
-	"internal/transformations.doCMDLine|*ret[slice-hi=(len(*ret) - 1)]":                                                            "space is only true right after a blank was appended to ret",
-	"internal/transformations.doJsDecode|makeslice[:3][:φ((*j + 1)|*j)][slice-hi=2]":                                               "reached only with j == 3",
-	"internal/transformations.doJsDecode|makeslice[:3][:φ((*j + 1)|*j)][0]":                                                        "reached only with j > 0",
-	"internal/transformations.hasTrimmableComponent|data[*start:*i][(len(data[*start:*i]) - 1)]":                                    "isAllDots(\"\") is true, so an empty component never reaches the index",
-	"internal/transformations.inplaceUniDecode|input[(*i + 1)]":                                                                    "n == i-start == 2 on this branch, so start+1 < i <= len(input)",
+	"internal/corazawaf.(*Rule).doEvaluate|*matchedValues[0]":                                                              "the function returns earlier when len(matchedValues)==0 and the slice only grows afterwards; the guard speaks about an earlier SSA version of the accumulator",
+	"internal/operators.(*indexedMatcher).matchCI|s[slice-lo=((*i - m.minLen) + 1)]":                                       "Horspool window: i starts at minLen-1 and only increases, the upper bound pos+nlen<=len(s) is tested",
+	"internal/operators.(*indexedMatcher).matchCS|s[slice-lo=((*i - m.minLen) + 1)]":                                       "Horspool window: i starts at minLen-1 and only increases, the upper bound pos+nlen<=len(s) is tested",
+	"internal/operators.(*restpath).Evaluate|o.re.FindStringSubmatch(value)[(*rangeindex + 1)]":                            "regexp API: a non-empty FindStringSubmatch result has len == len(SubexpNames())",
+	"internal/operators.(*rx).Evaluate|o.re.FindStringSubmatchIndex(value)[((2 * *i) + 1)]":                                "loop bound i < len(match)/2 implies 2i+1 < len(match)",
+	"internal/seclang.(*RuleParser).ParseOperator|strings.TrimSpace(strings.Cut(OPERATOR,\" \")#0)[0]":                     "the normalising switch makes the operator start with '@' or '!', so the part before the first blank is not empty",
+	"internal/seclang.(*RuleParser).ParseOperator|strings.TrimSpace(strings.Cut(OPERATOR,\" \")#0)[slice-lo=1]":            "same as above",
+	"internal/corazarules.(MatchedRule).ErrorLog|mr.MatchedDatas_[0]":                                                      "MatchRule is only reached with a non-empty match list (doEvaluate returns early on no match; SecAction synthesises one datum)",
+	"internal/corazawaf.chainPartOf|matchedChains[(*rangeindex + 1)][(*rangeindex + 1)]":                                   "multiphase build only: compared chains are produced by the same rule and have the same number of links",
+	"internal/corazawaf.isMultiphaseDoubleEvaluation|collectiveMatchedValues[slice-hi=(len(collectiveMatchedValues) - 1)]": "multiphase build only: the element being removed was appended by the caller just before",
+	"internal/operators.newRESTPath|operators.rePathTokenRe.FindAllStringSubmatch(data,-1)[(*rangeindex + 1)][1]":          "rePathTokenRe has exactly one capture group, every submatch slice has two elements",
+	"internal/seclang.parseActions|actions[slice-lo=(*beforeKey + 1)]":                                                     "beforeKey/afterKey are indices of bytes already scanned (or -1), so index+1 <= len(actions)",
+	"internal/seclang.parseActions|actions[slice-lo=(*afterKey + 1)]":                                                      "beforeKey/afterKey are indices of bytes already scanned (or -1), so index+1 <= len(actions)",
+	"internal/transformations.doCMDLine|*ret[slice-hi=(len(*ret) - 1)]":                                                    "space is only true right after a blank was appended to ret",
+	"internal/transformations.doJsDecode|makeslice[:3][:φ((*j + 1)|*j)][slice-hi=2]":                                       "reached only with j == 3",
+	"internal/transformations.doJsDecode|makeslice[:3][:φ((*j + 1)|*j)][0]":                                                "reached only with j > 0",
+	"internal/transformations.hasTrimmableComponent|data[*start:*i][(len(data[*start:*i]) - 1)]":                           "isAllDots(\"\") is true, so an empty component never reaches the index",
+	"internal/transformations.inplaceUniDecode|input[(*i + 1)]":                                                            "n == i-start == 2 on this branch, so start+1 < i <= len(input)",
+}
+
+// Renaming a local variable or a parameter must not turn a reviewed site into an alarm:
+// besides the exact key, a site matches an entry whose key is equal after replacing
+// free-standing identifiers (not a field, method, package or callee name) by positional
+// placeholders.
+var laIdent = regexp.MustCompile(`[A-Za-z_][A-Za-z0-9_]*`)
+var laKeep = map[string]bool{"len": true, "cap": true, "slice": true, "lo": true, "hi": true, "rangeindex": true, "makeslice": true, "OPERATOR": true}
+
+func laNorm(k string) string {
+	fn, d, ok := strings.Cut(k, "|")
+	if !ok {
+		return k
+	}
+	names := map[string]string{}
+	out := laIdent.ReplaceAllStringFunc(d, func(id string) string { return "\x00" + id + "\x00" })
+	var b strings.Builder
+	parts := strings.Split(out, "\x00")
+	for i, p := range parts {
+		if i%2 == 0 {
+			b.WriteString(p)
+			continue
+		}
+		prev, next := "", ""
+		if i > 0 {
+			prev = parts[i-1]
+		}
+		if i+1 < len(parts) {
+			next = parts[i+1]
+		}
+		if laKeep[p] || strings.HasSuffix(prev, ".") || strings.HasSuffix(prev, "-") || strings.HasPrefix(next, ".") || strings.HasPrefix(next, "(") {
+			b.WriteString(p)
+			continue
+		}
+		n, ok := names[p]
+		if !ok {
+			n = fmt.Sprintf("$%d", len(names)+1)
+			names[p] = n
+		}
+		b.WriteString(n)
+	}
+	return fn + "|" + b.String()
+}
+
+// laManualTwice: entries of laManual whose argument was checked for two reads of the same
+// shape in that function (all other entries cover exactly one read).
+var laManualTwice = map[string]bool{
+	"internal/corazawaf.(*Rule).doEvaluate|*matchedValues[0]":                            true, // Message_ and Data_ assignments
+	"internal/seclang.parseActions|actions[slice-lo=(*beforeKey + 1)]":                   true, // inside the loop and after it
+	"internal/seclang.parseActions|actions[slice-lo=(*afterKey + 1)]":                    true, // inside the loop and after it
+	"internal/corazawaf.chainPartOf|matchedChains[(*rangeindex + 1)][(*rangeindex + 1)]": true, // Variable() and Value() comparisons
+}
+
+var laManualNorm, laManualCount = func() (map[string]string, map[string]int) {
+	m, n := map[string]string{}, map[string]int{}
+	for k, v := range laManual {
+		m[laNorm(k)] = v
+		n[laNorm(k)]++
+		if laManualTwice[k] {
+			n[laNorm(k)]++
+		}
+	}
+	return m, n
+}()
+
+func laManualReason(k string) string {
+	if r := laManual[k]; r != "" {
+		return r
+	}
+	return laManualNorm[laNorm(k)]
 }
 
 var opPhi = regexp.MustCompile(`φ\("!@rx"\|[^#]*\|operator\)`)
@@ -46,6 +116,7 @@ func laKey(fn string, desc string) string {
 func lookaheadRule(c *an.Ctx, rule string, pkgs []string, minCount int) {
 	total, manual := 0, 0
 	seen := map[string]int{}
+	manualSeen := map[string]int{} // reviewed sites are counted: one more undecided read of the same shape is an alarm
 	for _, fn := range c.P.ModFuncs {
 		rp := relPkg(fn)
 		in := false
@@ -72,9 +143,10 @@ func lookaheadRule(c *an.Ctx, rule string, pkgs []string, minCount int) {
 			switch {
 			case ob.Ok:
 				c.Ok(rule, key, ob.Instr.Pos(), ob.Shape+": "+ob.Why)
-			case laManual[k] != "":
+			case laManualReason(k) != "" && manualSeen[laNorm(k)] < laManualCount[laNorm(k)]:
+				manualSeen[laNorm(k)]++
 				manual++
-				c.Note(rule, key, ob.Instr.Pos(), "not decided mechanically; manual argument: "+laManual[k])
+				c.Note(rule, key, ob.Instr.Pos(), "not decided mechanically; manual argument: "+laManualReason(k))
 			default:
 				c.Bad(rule, key, ob.Instr.Pos(), "look-ahead / fixed-position read without a dominating bound: "+ob.Why+"; input chosen by a configuration author or an HTTP peer can make this index out of range (panic)", ob.Facts.Strings()...)
 			}
